@@ -2,9 +2,9 @@
    pack_ok, expected result of unpack), the proofs are in Proofs.PackBits / PackRoundtrip / PackRoundtripGraph /
    PackRoundtripMol / PackLayout / PackElements / PackProofs / PackRxn / PackRxnLen / PackV0 / F16Proofs. *)
 From Coq Require Import ZArith List Bool.
-From Model Require Import PyBase Pack PackSpec PackSpecV0 PackApi PackRxnApi PackStereo F16.
+From Model Require Import PyBase Pack PackSpec PackSpecV0 PackApi PackRxnApi PackStereo PackStereoSpec F16.
 From Gen Require Import Elements.
-From Proofs Require Import PackBits PackRoundtrip PackRoundtripGraph PackRoundtripMol PackLayout PackElements PackApiProofs PackProofs PackRxn PackRxnLen PackV0 PackV0Unpack PackStereoProofs PackApiExt F16Proofs.
+From Proofs Require Import PackBits PackRoundtrip PackRoundtripGraph PackRoundtripMol PackLayout PackElements PackApiProofs PackProofs PackRxn PackRxnLen PackV0 PackV0Unpack PackStereoProofs PackStereoDisjoint PackApiExt F16Proofs.
 Import ListNotations.
 Open Scope Z_scope.
 
@@ -41,14 +41,14 @@ Proof. exact tabulated_isotopes_ok. Qed.
 Print Assumptions C10_tabulated_isotopes_ok.
 
 (* the Python level limits check of MoleculeContainer.pack(check=True) passes for every non-empty molecule within the
-   format limits (so the API call is the .pyx packer) and raises ValueError for an empty molecule, an atom number above
-   4095 or more than 15 neighbours *)
+   format limits (so the API call is the .pyx packer) and raises ValueError for an empty molecule, an atom number below
+   1 or above 4095 or more than 15 neighbours *)
 Theorem C10_mol_pack_within_limits : forall m, pack_ok m = true -> pm_atoms m <> [] -> mol_pack true m = pack m.
 Proof. exact mol_pack_within_limits. Qed.
 Print Assumptions C10_mol_pack_within_limits.
 
 Theorem C10_mol_pack_rejects : forall m,
-  pm_atoms m = [] \/ (exists a, In a (pm_atoms m) /\ (4095 < pa_n a \/ (15 < length (pa_nbrs a))%nat)) ->
+  pm_atoms m = [] \/ (exists a, In a (pm_atoms m) /\ (pa_n a < 1 \/ 4095 < pa_n a \/ (15 < length (pa_nbrs a))%nat)) ->
   mol_pack true m = Err ValueError.
 Proof. exact mol_pack_rejects. Qed.
 Print Assumptions C10_mol_pack_rejects.
@@ -216,21 +216,47 @@ Proof. exact rxn_example. Qed.
 Print Assumptions C10_rxn_example.
 
 (* PYTHON SIDE of MoleculeContainer.pack / unpack around the codecs (Model.PackStereo: the atom-keyed dicts
-   _stereo_cis_trans_terminals / _stereo_cis_trans_centers built from the stereogenic cumulene paths with later paths
-   overwriting, _cis_trans_count, and the re-attachment of the decoded records to bonds).  The full statement -- every
-   molecule within the format limits gets its bond stereo labels back -- is FALSE for the current code:
-   _refuted exhibits C/S(C)(=C(/F)Cl)=C(F)Cl (label of 2=4 comes back on 2=7); _partial proves the round trip incl. the
-   labels under the exact extra condition ct_consistent_b (for every labelled bond, first met from atom n, the terminals
-   entry of n leads through the centers dict back to this bond).  The path list is an input: it is a function of the
-   label-free structure (checked on every input by the correspondence) *)
-Theorem C10_api_roundtrip_partial : forall (atoms : list patom) (paths : list (list Z)) (suf : list Z),
+   _stereo_cis_trans_terminals / _stereo_cis_trans_centers built from the registered (stereogenic, even) cumulene paths
+   with later paths overwriting, _cis_trans_count, and the re-attachment of the decoded records to bonds).  The path
+   list is an input: it is a function of the label-free structure (checked on every input by the correspondence).
+   ROUND TRIP incl. the bond stereo labels, for every molecule within the format limits, under the registry invariant
+   (Model.PackStereoSpec: registered paths never share an atom -- guaranteed by stereogenic_cumulenes since fix 2e29c31 and
+   evaluated on every correspondence input -- and every labelled bond is the central bond of a registered path) *)
+Theorem C10_api_roundtrip : forall (atoms : list patom) (paths : list (list Z)) (suf : list Z),
+  pack_ok (api_pmol atoms paths) = true -> labels_sym_b atoms = true ->
+  paths_disjoint_b paths = true -> labelled_registered_b atoms paths = true ->
+  exists bytes, api_pack atoms paths = Ok bytes /\
+    api_unpack paths (bytes ++ suf) = Ok (map uatom_of atoms, ladj_of_atoms atoms, Z.of_nat (length bytes)).
+Proof. exact api_roundtrip. Qed.
+Print Assumptions C10_api_roundtrip.
+
+(* non-vacuity: F/C(Cl)=C=C=C(/F)Cl, one 4-atom path, the label on the central bond *)
+Theorem C10_api_roundtrip_example :
+  pack_ok (api_pmol cumulene_atoms cumulene_paths) = true /\ labels_sym_b cumulene_atoms = true /\
+  paths_disjoint_b cumulene_paths = true /\ labelled_registered_b cumulene_atoms cumulene_paths = true /\
+  terminals_of cumulene_paths = [(2, (2, 6)); (6, (2, 6)); (5, (2, 6)); (4, (2, 6))] /\
+  centers_of cumulene_paths = [(2, (4, 5)); (6, (4, 5))] /\ cis_trans_count cumulene_atoms = 1.
+Proof. exact api_roundtrip_example. Qed.
+Print Assumptions C10_api_roundtrip_example.
+
+(* the general form: the exact condition on the two dicts (for every labelled bond, first met from atom n, the terminals
+   entry of n leads through the centers dict back to this bond), and that the registry invariant implies it *)
+Theorem C10_api_roundtrip_consistent : forall (atoms : list patom) (paths : list (list Z)) (suf : list Z),
   pack_ok (api_pmol atoms paths) = true -> labels_sym_b atoms = true -> ct_consistent_b atoms paths = true ->
   exists bytes, api_pack atoms paths = Ok bytes /\
     api_unpack paths (bytes ++ suf) = Ok (map uatom_of atoms, ladj_of_atoms atoms, Z.of_nat (length bytes)).
 Proof. exact api_roundtrip_partial. Qed.
-Print Assumptions C10_api_roundtrip_partial.
+Print Assumptions C10_api_roundtrip_consistent.
 
-Theorem C10_api_roundtrip_refuted :
+Theorem C10_ct_consistent_of_disjoint : forall atoms paths,
+  paths_disjoint_b paths = true -> labelled_registered_b atoms paths = true -> ct_consistent_b atoms paths = true.
+Proof. exact ct_consistent_of_disjoint. Qed.
+Print Assumptions C10_ct_consistent_of_disjoint.
+
+(* the invariant cannot be dropped: with two registered paths sharing atom 2 -- the registry produced such lists for
+   C/S(C)(=C(/F)Cl)=C(F)Cl before fix 2e29c31 -- every other hypothesis holds and the label of 2=4 comes back on 2=7 *)
+Theorem C10_api_roundtrip_needs_disjoint :
+  paths_disjoint_b ct_shared_paths = false /\ labelled_registered_b ct_shared_atoms ct_shared_paths = true /\
   pack_ok (api_pmol ct_shared_atoms ct_shared_paths) = true /\ labels_sym_b ct_shared_atoms = true /\
   ct_consistent_b ct_shared_atoms ct_shared_paths = false /\
   exists bytes adj size,
@@ -239,8 +265,8 @@ Theorem C10_api_roundtrip_refuted :
     adj <> ladj_of_atoms ct_shared_atoms /\
     zget (ladj_of_atoms ct_shared_atoms) 2 = Some [(1, (1, None)); (3, (1, None)); (4, (2, Some false)); (7, (2, None))] /\
     zget adj 2 = Some [(1, (1, None)); (3, (1, None)); (4, (2, None)); (7, (2, Some false))].
-Proof. exact api_roundtrip_refuted. Qed.
-Print Assumptions C10_api_roundtrip_refuted.
+Proof. exact api_roundtrip_needs_disjoint_full. Qed.
+Print Assumptions C10_api_roundtrip_needs_disjoint.
 
 (* ReactionContainer.pack at API level (Model.PackRxnApi: header bytearray first, then every molecule through
    MoleculeContainer.pack(check=True) in the order reactants, reagents, products).
@@ -285,18 +311,21 @@ Print Assumptions C10_rxn_api_pack_rejects.
    atom numbers <= 4095 and at most 15 neighbours per atom *)
 Theorem C10_mol_pack_check_characterised : forall m,
   mol_pack_check m = Ok tt <->
-  pm_atoms m <> [] /\ (forall a, In a (pm_atoms m) -> pa_n a <= 4095) /\ (forall a, In a (pm_atoms m) -> (length (pa_nbrs a) <= 15)%nat).
+  pm_atoms m <> [] /\ (forall a, In a (pm_atoms m) -> 1 <= pa_n a <= 4095) /\ (forall a, In a (pm_atoms m) -> (length (pa_nbrs a) <= 15)%nat).
 Proof. exact mol_pack_check_characterised. Qed.
 Print Assumptions C10_mol_pack_check_characterised.
 
-(* "what the check accepts is within the format limits" is FALSE (finding): atom numbers -1 and 0, hydrogens 7 and 8,
-   charges 12 and -5, isotope offset 32 are accepted, are outside the limits, and decode to a different atom (for the
-   negative number the model shows the wrapped number 4095; in C the packer also writes seen[65535] out of bounds) *)
+(* atom numbers below 1 are rejected since fix c3175c9 (a negative number used to wrap to 65535 and make the packer write
+   outside its 4096 cell table) *)
+Theorem C10_mol_pack_nonpositive_rejected :
+  mol_pack true unrep_negative = Err ValueError /\ mol_pack true unrep_zero = Err ValueError.
+Proof. exact mol_pack_nonpositive_rejected. Qed.
+Print Assumptions C10_mol_pack_nonpositive_rejected.
+
+(* "what the check accepts is within the format limits" is still FALSE for values that can only be written through
+   private attributes (public setters validate isotope and charge, hydrogens are computed): hydrogens 7 and 8, charges
+   12 and -5, isotope offset 32 are accepted, are outside the limits, and decode to a different atom *)
 Theorem C10_mol_pack_check_complete_refuted :
-  (mol_pack true unrep_negative = pack unrep_negative /\ pack_ok unrep_negative = false /\
-   option_map (map ua_n) (decoded_atoms unrep_negative) = Some [4095]) /\
-  (mol_pack true unrep_zero = pack unrep_zero /\ pack_ok unrep_zero = false /\
-   option_map (map ua_n) (decoded_atoms unrep_zero) = Some [0]) /\
   (mol_pack true unrep_h7 = pack unrep_h7 /\ pack_ok unrep_h7 = false /\
    option_map (map ua_h) (decoded_atoms unrep_h7) = Some [None]) /\
   (mol_pack true unrep_h8 = pack unrep_h8 /\ pack_ok unrep_h8 = false /\
@@ -310,8 +339,8 @@ Theorem C10_mol_pack_check_complete_refuted :
 Proof. exact mol_pack_check_complete_refuted. Qed.
 Print Assumptions C10_mol_pack_check_complete_refuted.
 
-(* what the check does guarantee (the other limits -- number >= 1, isotope offset, hydrogens, charge -- are missing) *)
+(* what the check does guarantee (the other limits -- isotope offset, hydrogens, charge -- are missing) *)
 Theorem C10_mol_pack_check_complete_partial : forall m, mol_pack_check m = Ok tt ->
-  forall a, In a (pm_atoms m) -> pa_n a < 4096 /\ (length (pa_nbrs a) <= 15)%nat.
+  forall a, In a (pm_atoms m) -> 1 <= pa_n a < 4096 /\ (length (pa_nbrs a) <= 15)%nat.
 Proof. exact mol_pack_check_complete_partial. Qed.
 Print Assumptions C10_mol_pack_check_complete_partial.
